@@ -160,7 +160,8 @@ def run(ctx):
     jwe_consume(ctx, max(4, n_sets // 3))
 
 
-JWE_POOL = [("A128KW", "oct16"), ("A256KW", "oct32"), ("dir", "oct32"), ("RSA-OAEP", "rsa2048"), ("RSA-OAEP-256", "rsa2048b"), ("ECDH-ES", "p256"),
+# (every entry has its own key material: two kids over the same octets would make "the kid of another key" decrypt)
+JWE_POOL = [("A128KW", "oct16"), ("A256KW", "oct32"), ("dir", "oct64"), ("RSA-OAEP", "rsa2048"), ("RSA-OAEP-256", "rsa2048b"), ("ECDH-ES", "p256"),
             ("ECDH-ES+A128KW", "x25519"), ("ECDH-ES+A256KW", "p384"), ("PBES2-HS256+A128KW", "oct48"), ("A192GCMKW", "oct24")]
 
 
@@ -178,7 +179,7 @@ def jwe_consume(ctx, n_sets):
         keys = [K.key(kn, private=True, kid=f"kid-{i}-{kn}") for i, (_, kn) in enumerate(chosen)]
         ks = KeySet(keys)
         for i, (alg, kn) in enumerate(chosen):
-            enc = "A256GCM" if alg == "dir" else rng.choice(["A128GCM", "A128CBC-HS256", "A256GCM"])
+            enc = "A256CBC-HS512" if alg == "dir" else rng.choice(["A128GCM", "A128CBC-HS256", "A256GCM"])
             for kid_mode in ("right", "absent", "unknown", "other-key", "nonstring"):
                 if kid_mode == "other-key" and n < 2:
                     continue
